@@ -152,16 +152,23 @@ def _run(spec, repo_src, root):
     sys.stdout = io.TextIOWrapper(io.FileIO(1, "w", closefd=False), encoding="utf-8", errors="backslashreplace", line_buffering=True)
     sys.stderr = io.TextIOWrapper(io.FileIO(2, "w", closefd=False), encoding="utf-8", errors="backslashreplace", line_buffering=True)
 
-    argv = [_subst(a, root) for a in spec["argv"]]
+    argv = [_subst(a, root) for a in spec.get("argv", [])]
     sys.argv = ["codemodder"] + argv
     status = None
     exc = None
     tb = None
     import codemodder.codemodder as cm
 
+    call_result = None
     try:
         try:
-            status = cm.run(argv)
+            if spec.get("call"):
+                from . import calls
+
+                call_result = calls.CALLS[spec["call"]["name"]](spec, root)
+                status = 0
+            else:
+                status = cm.run(argv)
         except SystemExit as e:
             status = e.code if isinstance(e.code, int) or e.code is None else 1
             if status is None:
@@ -238,6 +245,7 @@ def _run(spec, repo_src, root):
     coarse = [e for e in sim.events if e[0] in ("pool", "file-start", "file-end", "codemod-begin", "fault")]
     outcome = {
         "name": spec.get("name"),
+        "call_result": call_result,
         "status": status,
         "exception": exc,
         "traceback": tb.replace(root, "<S>") if tb else None,
